@@ -176,7 +176,24 @@ impl<'a> Gen<'a> {
     pub fn number(&mut self) {
         let r = &mut *self.r;
         let wild = self.o.wild_numbers;
-        let s: String = match r.below(if wild { 20 } else { 6 }) {
+        let s: String = match r.below(if wild { 23 } else { 6 }) {
+            20..=22 => {
+                // the edges of the f64 range (kept finite): around f64::MAX with 1..60-digit
+                // mantissas, subnormal / smallest-normal boundaries, random doubles re-spelled
+                let t = match r.below(3) {
+                    0 => crate::gen::numlit::overflow_boundary(r),
+                    1 => (*r.pick(&["4.9e-324", "5e-324", "2.4703282292062328e-324", "2.2250738585072014e-308", "2.2250738585072011e-308", "1e-320", "1.7976931348623157e308", "17976931348623157e292", "0.17976931348623157E+309", "1e308", "9.999999999999999e307", "1e-400", "123e-330"])).to_string(),
+                    _ => {
+                        let x = crate::gen::numlit::random_f64_bits(r);
+                        let lit = format!("{:e}", x);
+                        crate::gen::numlit::respell(r, &lit)
+                    }
+                };
+                match t.parse::<f64>() {
+                    Ok(f) if f.is_finite() && crate::refmodel::num::is_json_number(t.as_bytes()) => t,
+                    _ => "1.7976931348623157e308".into(),
+                }
+            }
             16..=19 => {
                 // every combination the grammar allows: sign, 1..25 integer digits, optional
                 // fraction, optional exponent with e/E and +/-/no sign
